@@ -71,6 +71,9 @@ async fn run_command(
     cmd.args(program_args);
     cmd.stdout(std::process::Stdio::piped());
     cmd.stderr(std::process::Stdio::piped());
+    // A call that is abandoned (the runner's `timeout_ms` drops this future) must not leave its
+    // command running: the caller releases the workspace lock as soon as the call has ended.
+    cmd.kill_on_drop(true);
 
     if let Some(cwd) = args.cwd.as_deref() {
         match resolve_path(&config.workspace_root, cwd) {
